@@ -16,6 +16,8 @@ mod model;
 mod props;
 mod rng;
 mod util;
+mod wire;
+mod act;
 
 use ctx::{Ctx, Tier};
 
